@@ -348,9 +348,28 @@ def _pair_rest(repo, col, R):
     col.check(ok, R, fi, "_external_input stores values and indices together on every path", str(list(by_guard.values())),
               f"stores per path: {list(by_guard.values())}", node=fi.node)
     fi = repo.method("Module", "record")
-    src = unparse(fi.node)
-    ok = "self.base.recordings.duplicated()" in src and "self.base.recordings.loc[~has_duplicates]" in src
-    col.check(ok, R, fi, "record de-duplicates on whole rows (rec_index, state)", "", "recordings are not de-duplicated", node=fi.node)
+    exr = idx.expander(repo, fi)
+    rs = [s_ for s_ in exr.stores if s_.kind == "attr" and s_.key.name == "recordings" and s_.value is not None]
+    dedup, partial = False, None
+    for s_ in rs:
+        for x in s_.value.walk():
+            if x.op == "mcall" and x.name in ("duplicated", "drop_duplicates") and \
+                    T.find(x.args[0], lambda y: y.op == "attr" and y.name == "recordings") is not None:
+                sub = x.kw.get("subset") or (x.args[1] if len(x.args) > 1 else None)
+                if sub is not None and not (sub.op in ("list", "tuple") and {a_.name for a_ in sub.args if a_.op == "const"} >= {"rec_index", "state"}):
+                    partial = sub
+                    continue
+                if x.name == "drop_duplicates":
+                    dedup = True
+                else:
+                    # rows kept are the NOT duplicated ones
+                    neg = T.find(s_.value, lambda y: y.op == "unary" and y.name in ("Invert", "Not") and T.find(y, lambda z: z is x) is not None)
+                    dedup = dedup or neg is not None
+    col.add(R, fi, "record de-duplicates on whole rows (rec_index, state)", "DISCHARGED" if dedup else ("VIOLATED" if (partial is not None or rs) else "UNDECIDED"),
+            "rows that repeat (rec_index, state) are dropped" if dedup else
+            (f"duplicates are detected on {partial.short(40)} only: two different states recorded at one compartment collapse into one"
+             if partial is not None else "recording the same state twice at one place yields two rows: the recorded array has a duplicate row "
+             "and delete/record histories are not idempotent"), node=fi.node)
     fi = repo.method("Network", "_append_multiple_synapses")
     ex = idx.expander(repo, fi)
     # global_edge_index of the new rows = len(existing edges) .. len(existing edges) + number of new rows
